@@ -201,7 +201,7 @@ fn check_grouping_ident(ctx: &mut Ctx, elevs: &[u8], ident: Ident, shape: u64) {
     }
     // radials unaltered
     let flat: Vec<&Radial> = sweeps.iter().flat_map(|s| s.radials().iter()).collect();
-    if flat.iter().zip(radials.iter()).any(|(a, b)| **a != *b) {
+    if flat.iter().zip(radials.iter()).any(|(a, b)| **a != *b || crate::volgen::radial_fingerprint(a) != crate::volgen::radial_fingerprint(b)) {
         ctx.obs.violation(cls("alters a radial"), "element-wise comparison failed", replay);
         return;
     }
@@ -233,6 +233,8 @@ fn check_merge_ident(ctx: &mut Ctx, e1: u8, az1: &[u16], e2: u8, az2: &[u16], eq
     let replay = json!({"op": "merge", "equal_radials": equal_radials, "first": {"elevation": e1, "azimuths": az1}, "second": {"elevation": e2, "azimuths": az2}});
     let s1 = Sweep::new(e1, a.clone());
     let s2 = Sweep::new(e2, b.clone());
+    // (every other merge is made from clones of the two sweeps)
+    let (s1, s2) = if shape % 2 == 0 { (s1.clone(), s2.clone()) } else { (s1, s2) };
     let r = match mon::catch(|| s1.merge(s2)) {
         Ok(r) => r,
         Err(p) => {
@@ -302,7 +304,7 @@ fn check_merge_ident(ctx: &mut Ctx, e1: u8, az1: &[u16], e2: u8, az2: &[u16], eq
     // unaltered: the merged radials are, element-wise, the stable sort of first ++ second
     let mut want_r: Vec<&Radial> = a.iter().chain(b.iter()).collect();
     want_r.sort_by_key(|r| r.azimuth_number());
-    if merged.radials().len() != want_r.len() || merged.radials().iter().zip(want_r.iter()).any(|(g, w)| g != *w) {
+    if merged.radials().len() != want_r.len() || merged.radials().iter().zip(want_r.iter()).any(|(g, w)| g != *w || crate::volgen::radial_fingerprint(g) != crate::volgen::radial_fingerprint(w)) {
         ctx.obs.violation("merge alters a radial", "element-wise comparison failed", replay);
         return;
     }
